@@ -70,7 +70,20 @@ pub fn ambiguous_program(rng: &mut Rng) -> Vec<u8> {
     for (i, r) in regs.iter().take(nregs).enumerate() {
         s.push_str(&format!("    {} => 0x{:x}\n", r, i + 1));
     }
+    if rng.chance(1, 2) {
+        // two alternatives of the subruledef spell the same text: the same
+        // top-level rule then matches in several ways (nested ambiguity)
+        let dup = regs[rng.below(nregs)];
+        s.push_str(&format!("    {} => 0x{:x}\n", dup, 9));
+        if rng.chance(1, 2) {
+            s.push_str(&format!("    {} => 0x{:x}\n", dup, 10));
+        }
+    }
     s.push_str("}\n\n#ruledef\n{\n");
+    if rng.chance(1, 3) {
+        // locals whose names differ only by a leading `__`, used in an asm block
+        s.push_str("    emitv {v: i8} => v\n    pair {a} =>\n    {\n        lo = a & 0x0f\n        __lo = a >> 4\n        asm { emitv {lo} }\n    }\n    pair2 {a} =>\n    {\n        __hi = a >> 4\n        hi = a & 0x0f\n        asm {\n            emitv {hi}\n            emitv {__hi}\n        }\n    }\n");
+    }
     let mnems = ["ld", "ldx", "l", "ldxy", "ad", "add", "addx", "ldd"];
     let nrules = rng.range(3, 8);
     let mut rules: Vec<(&str, usize)> = Vec::new();
@@ -90,6 +103,9 @@ pub fn ambiguous_program(rng: &mut Rng) -> Vec<u8> {
     // instructions instantiate the rules, so they match at least one; when a
     // glued `ld{r}` with r = x spells another rule's mnemonic `ldx`, several
     // candidates from different prefix buckets compete
+    if s.contains("pair {a}") {
+        s.push_str(&format!("pair 0x{:02x}\npair2 0x{:02x}\n", 0x21 + rng.below(64), 0x12 + rng.below(64)));
+    }
     for _ in 0..rng.range(1, 5) {
         let (m, kind) = *rng.pick(&rules);
         match kind {
@@ -148,6 +164,42 @@ pub fn std_program(rng: &mut Rng) -> Vec<u8> {
     s.into_bytes()
 }
 
+
+/// Two to four banks with output offsets and sizes from a small set, so that
+/// output ranges of *some* pairs overlap (not necessarily the last pair
+/// compared), data in a subset of the banks.
+pub fn bank_program(rng: &mut Rng) -> Vec<u8> {
+    let mut s = String::new();
+    let names = ["low", "mid", "high", "extra"];
+    let n = rng.range(2, 4);
+    for i in 0..n {
+        s.push_str(&format!("#bankdef {}\n{{\n    #bits 8\n    #addr {}\n", names[i], rng.pick(&["0x0", "0x10", "0x8000", "0x100"])));
+        if rng.chance(4, 5) {
+            s.push_str(&format!("    #size {}\n", rng.pick(&["0x4", "0x8", "0x10", "0x2"])));
+        }
+        if rng.chance(5, 6) {
+            s.push_str(&format!("    #outp 8 * {}\n", rng.pick(&["0x0", "0x4", "0x8", "0x10", "0x20", "0x2"])));
+        }
+        if rng.chance(1, 3) {
+            s.push_str("    #fill\n");
+        }
+        s.push_str("}\n\n");
+    }
+    for i in 0..n {
+        if rng.chance(2, 3) {
+            s.push_str(&format!("#bank {}\n", names[i]));
+            s.push_str(&format!("{}_start:\n", names[i]));
+            let k = rng.range(1, 5);
+            let vals: Vec<String> = (0..k).map(|j| format!("{}", i * 16 + j)).collect();
+            s.push_str(&format!("#d8 {}\n", vals.join(", ")));
+            if rng.chance(1, 4) {
+                s.push_str("#d8 $\n");
+            }
+        }
+    }
+    s.into_bytes()
+}
+
 /// Job `k` of the pool for this seed: a pure function of (seed, k).
 pub fn pool_job(seed: u64, k: usize, c: &Corpus) -> Job {
     let mut rng = Rng::new(seed).fork_n("c10-pool", k as u64);
@@ -172,7 +224,11 @@ pub fn pool_job(seed: u64, k: usize, c: &Corpus) -> Job {
         // generated programs: many symbols / ambiguous prefixes / several
         // files with identical layout / on top of the built-in library
         let mut disk = crate::disk::Disk::new(corpus::PROJ);
-        let root = match rng.below(8) {
+        let root = match rng.below(9) {
+            8 => {
+                disk.add_file("banks.asm", bank_program(&mut rng));
+                "banks.asm".to_string()
+            }
             0 | 1 | 2 => {
                 disk.add_file("prog.asm", symbol_program(&mut rng));
                 "prog.asm".to_string()
